@@ -93,6 +93,39 @@ def laws(ld):
             L[f'concat-of-callers-list-{form}{k}=id'] = (
                 lhs, lambda d, k=k: (need(d.indexable and k <= n_of(d)), d)[1])
 
+    # a read that is refused is no use of the dataset: the keyed read of a
+    # seeded reshuffle without keys (items(); the first attempt of new(ds),
+    # which falls back to a plain pass) leaves the sequence of epochs alone
+    def keyless(d):
+        try:
+            d.keys()
+        except BaseException:
+            return True
+        return False
+
+    def rs(d):
+        return d.shuffle(True, rng=np.random.RandomState(7))
+
+    def refused_first(d):
+        need(d.indexable and n_of(d) >= 2 and keyless(d))
+        s_ = rs(d)
+        for _ in range(2):
+            try:
+                next(iter(s_.items()))
+            except BaseException:
+                continue
+            raise Inapplicable()
+        return s_
+    L['refused-items-of-seeded-reshuffle=never-asked'] = (
+        refused_first, lambda d: (need(d.indexable and n_of(d) >= 2 and keyless(d)), rs(d))[1])
+    L['new-of-seeded-reshuffle=list-of-its-first-epoch'] = (
+        lambda d: (need(d.indexable and n_of(d) >= 2 and keyless(d)), ld.new(rs(d)))[1],
+        lambda d: (need(d.indexable and n_of(d) >= 2 and keyless(d)), ld.new(list(rs(d))))[1])
+    L['new-of-mapped-seeded-reshuffle=list-of-its-first-epoch'] = (
+        lambda d: (need(d.indexable and n_of(d) >= 2 and keyless(d)), ld.new(rs(d).map(G)))[1],
+        lambda d: (need(d.indexable and n_of(d) >= 2 and keyless(d)),
+                   ld.new(list(rs(d).map(G))))[1])
+
     def zl(d):
         need(d.indexable and n_of(d) >= 1)
         parts = [d, d.map(F)]
